@@ -17,7 +17,7 @@ type BSession struct {
 type BCase struct {
 	ID       string
 	Cfg      *Cfg
-	Files    []File // optional: explicit input files (otherwise Cfg.YAML() in one file)
+	Files    []File   // optional: explicit input files (otherwise Cfg.YAML() in one file)
 	Patterns []string // optional: the -i patterns (otherwise one -i per file, in the order of Files)
 	Local    bool
 	Sessions []BSession
